@@ -21,9 +21,9 @@ from harness import ms_common as M
 PROPERTY = "C01"
 BOUNDS = {
     "quick": "potential: 0 (no ensemble axis), 1, 2 or 3 configurations x 1..3 slices, every exit-plane subset (<= 3 slices); detector sets {waves}, {annular-like (drops base axes)}, "
-             "{both}; scans none / point / CustomScan(3) / LineScan(3) / GridScan(2x3); max_batch in {1, 2, 3, 'auto'}; prebuilt lazy waves with every chunking of a 3-member axis and of a 2x2 scan; "
+             "{both}; scans none / point / CustomScan(3) / LineScan(3) / GridScan(3x3); max_batch in {1, 2, 3, 4, 'auto'} (so that scan axes are split into equal blocks and into blocks with a remainder); prebuilt lazy waves with every chunking of a 3-member axis and of a 2x2 scan; "
              "two dask schedules (whole-graph synchronous order, and every output block computed alone in reverse order); wave functions, slices, propagators, detectors uninterpreted",
-    "thorough": "up to 4 configurations x 4 slices, scans up to 3x3, prebuilt axes up to 4 members, max_batch up to 5",
+    "thorough": "up to 4 configurations x 4 slices, scans up to 4x4, prebuilt axes up to 4 members, max_batch up to 7",
 }
 OUTSIDE = ["floating-point values of the numerical kernels (identical code runs in both modes; not modelled)", "dask's threaded/distributed schedulers (z3 terms are not thread-safe): only the two "
            "deterministic task orders above are explored, so a data race between blocks is outside the claim", "ensemble_mean reduction and CTF application after the transform (numerical means over uninterpreted terms)",
@@ -210,7 +210,7 @@ def _scan(kind, n):
     if kind == "line":
         return abtem.LineScan((0, 0), (1, 1), gpts=n)
     if kind == "grid":
-        return abtem.GridScan((0, 0), (1, 1), gpts=(n - 1, n), endpoint=False)
+        return abtem.GridScan((0, 0), (1, 1), gpts=(n, n), endpoint=False)
     raise ValueError(kind)
 
 
@@ -248,7 +248,7 @@ def R_PIPE(builder, scan_kind, nscan, ncfg, nsl, planes, detset, mb):
         if SCAN == 'point': return (0.5, 0.25)
         if SCAN == 'custom': return abtem.CustomScan(np.array([[i / 4, (i * i % 3) / 4] for i in range(n)], dtype=float))
         if SCAN == 'line': return abtem.LineScan((0, 0), (1, 1), gpts=n)
-        return abtem.GridScan((0, 0), (1, 1), gpts=(n - 1, n), endpoint=False)
+        return abtem.GridScan((0, 0), (1, 1), gpts=(n, n), endpoint=False)
     def run(lazy):
         if BUILDER == 'probe':
             out = abtem.Probe(energy=100e3, semiangle_cutoff=30).multislice(pot(), scan=scan(), detectors=dets(), lazy=lazy, max_batch=MB)
@@ -358,7 +358,7 @@ def R_PRE(layout, ncfg, nsl, planes, detset, chunks, mb):
 def cases(tier):
     q = tier == "quick"
     out = []
-    batches = (1, 2, 3, "auto") if q else (1, 2, 3, 5, "auto")
+    batches = (1, 2, 3, 4, "auto") if q else (1, 2, 3, 4, 5, 7, "auto")  # 4 on a 3x3 grid scan gives blocks (2,1)x(2,1): a remainder block on both axes
     nscan = 3 if q else 4
     cfgs = (0, 1, 2, 3) if q else (0, 1, 2, 3, 4)
     for scan_kind in ("none", "point", "custom", "line", "grid"):
